@@ -31,6 +31,7 @@ type Engine struct {
 	// theories: contracts for functions outside the repo (assumed)
 	ext map[string]*Contract
 	ghosts map[string]*GhostDecl
+	writtenKeys map[string]bool // struct-field heap keys stored to through a pointer that is not a fresh allocation of the storing function
 	pkgSpecs map[string]map[string]*SpecFunc
 	readonly map[string]*ReadonlyGlobal
 	// counters
@@ -191,4 +192,78 @@ func extKey(f *ssa.Function) string {
 		return o.Pkg().Path() + "." + f.RelString(o.Pkg())
 	}
 	return f.String()
+}
+
+// computeWrittenKeys scans every repository function: a field key that is only ever stored to through
+// objects the storing function allocated itself is "write-once at construction"; its value on existing
+// objects cannot be changed by any call (used to keep facts about configuration fields across calls).
+func (e *Engine) computeWrittenKeys() {
+	e.writtenKeys = map[string]bool{}
+	st := newSortTable()
+	var rootIsFresh func(v ssa.Value, depth int) bool
+	rootIsFresh = func(v ssa.Value, depth int) bool {
+		if depth > 6 {
+			return false
+		}
+		switch v := v.(type) {
+		case *ssa.Alloc:
+			return true
+		case *ssa.FieldAddr:
+			return rootIsFresh(v.X, depth+1)
+		case *ssa.IndexAddr:
+			return rootIsFresh(v.X, depth+1)
+		}
+		return false
+	}
+	for _, k := range e.sortedFuncKeys() {
+		fn := e.funcs[k]
+		for _, b := range fn.Blocks {
+			for _, ins := range b.Instrs {
+				switch ins := ins.(type) {
+				case *ssa.Store:
+					fa, ok := ins.Addr.(*ssa.FieldAddr)
+					if !ok {
+						// whole-struct store through a pointer: every field of that struct type
+						if pt, ok := ins.Addr.Type().Underlying().(*types.Pointer); ok {
+							if _, isS := structOf(pt.Elem()); isS && !rootIsFresh(ins.Addr, 0) {
+								for _, fk := range allFieldKeys(st, pt.Elem()) {
+									e.writtenKeys[fk] = true
+								}
+							}
+						}
+						continue
+					}
+					if rootIsFresh(fa.X, 0) {
+						continue
+					}
+					pt := fa.X.Type().Underlying().(*types.Pointer).Elem()
+					s, _ := structOf(pt)
+					f := s.Field(fa.Field)
+					if _, inner := structOf(f.Type()); inner {
+						for _, fk := range allFieldKeys(st, f.Type()) {
+							e.writtenKeys[fk] = true
+						}
+					} else {
+						e.writtenKeys[fieldKey(st.structName(pt), f.Name())] = true
+					}
+				case ssa.CallInstruction:
+					// the address of a field handed to a call: the callee may write it
+					for _, a := range ins.Common().Args {
+						if fa, ok := a.(*ssa.FieldAddr); ok && !rootIsFresh(fa.X, 0) {
+							pt := fa.X.Type().Underlying().(*types.Pointer).Elem()
+							s, _ := structOf(pt)
+							f := s.Field(fa.Field)
+							if _, inner := structOf(f.Type()); inner {
+								for _, fk := range allFieldKeys(st, f.Type()) {
+									e.writtenKeys[fk] = true
+								}
+							} else {
+								e.writtenKeys[fieldKey(st.structName(pt), f.Name())] = true
+							}
+						}
+					}
+				}
+			}
+		}
+	}
 }
